@@ -61,6 +61,22 @@ MarkRefused(ps) ==    \* a prefix that is not unexplored, or one listed twice
   /\ Log([a |-> "mark", ps |-> ps, ok |-> FALSE])
   /\ UNCHANGED fog
 
+\* C18: malformed nibble sequences are refused (TypeError / ValueError) without effect
+FogRejects ==
+  { [entry |-> "explore", arg |-> "prefix", kind |-> "notsequence", exc |-> "TypeError", needs |-> "any"],
+    [entry |-> "explore", arg |-> "prefix", kind |-> "badnibble", exc |-> "ValueError", needs |-> "any"],
+    [entry |-> "explore", arg |-> "segments", kind |-> "badnibble", exc |-> "ValueError", needs |-> "any"],
+    [entry |-> "explore", arg |-> "segments", kind |-> "notsequence", exc |-> "TypeError", needs |-> "any"],
+    [entry |-> "mark_all_complete", arg |-> "prefixes", kind |-> "badnibble", exc |-> "ValueError", needs |-> "any"],
+    [entry |-> "nearest_unknown", arg |-> "key", kind |-> "notsequence", exc |-> "TypeError", needs |-> "any"],
+    [entry |-> "nearest_unknown", arg |-> "key", kind |-> "badnibble", exc |-> "ValueError", needs |-> "any"],
+    [entry |-> "nearest_right", arg |-> "key", kind |-> "notsequence", exc |-> "TypeError", needs |-> "any"],
+    [entry |-> "nearest_right", arg |-> "key", kind |-> "badnibble", exc |-> "ValueError", needs |-> "any"],
+    [entry |-> "Nibbles", arg |-> "arg", kind |-> "notsequence", exc |-> "TypeError", needs |-> "any"],
+    [entry |-> "Nibbles", arg |-> "elem", kind |-> "badnibble", exc |-> "ValueError", needs |-> "any"] }
+Rejected(e) == /\ Log([a |-> "reject", entry |-> e.entry, arg |-> e.arg, kind |-> e.kind, exc |-> e.exc, ok |-> FALSE])
+               /\ UNCHANGED fog
+NextR == \E e \in FogRejects : Rejected(e)
 Next == \/ \E p \in fog : \E S \in SegSets : Explore(p, S)
         \/ \E p \in fog \cup Strangers : \E S \in SegSets : ExploreRefused(p, [i \in 1..0 |-> <<>>])
         \/ \E p \in Strangers \ fog : \E S \in SegSets :
@@ -70,6 +86,7 @@ Next == \/ \E p \in fog : \E S \in SegSets : Explore(p, S)
         \/ \E p \in fog : \E s \in Strangers \ fog : MarkRefused(<<p, s>>)
         \/ \E p \in fog : MarkRefused(<<p, p>>)
 Spec == Init /\ [][Next]_vars
+SpecR == Init /\ [][Next \/ NextR]_vars
 
 ---------------------------------------------------------------------------
 \* TRANSCRIPTION of the queries.  sorted = the SortedSet; bisect = bisect_right
